@@ -5,3 +5,4 @@
 import RosuModel.Props.C15Velocity
 import RosuModel.Props.C15Ieee
 import RosuModel.Props.C15IeeeDecoded
+import RosuModel.Props.C15IeeeShift
